@@ -6,8 +6,8 @@ import (
 	"fmt"
 	"math/rand/v2"
 	"os"
-	"runtime"
 	"regexp"
+	"runtime"
 	"sort"
 	"strconv"
 	"strings"
